@@ -66,6 +66,38 @@ def pairing(ctx: Ctx, cls, meth, attrs, label):
     return it
 
 
+def entropy_of_the_processed_distribution(ctx: Ctx):
+    """C11.m a policy that evaluates given actions (L2D's PPO policies) reports the entropy of the distribution the actions were
+    scored under: every `Categorical(...)` built in a function that calls `process_logits` takes the value RETURNED by
+    process_logits (directly or through `.exp()`), not the raw `logits` handed to it -- process_logits only masks its argument
+    in place when no clipping re-binds it, so `Categorical(logits=logits)` is the distribution of the unclipped, unmasked
+    scores whenever tanh clipping is on."""
+    n = 0
+    for name, mi in sorted(ctx.repo.modules.items()):
+        if not name.startswith("rl4co.models"):
+            continue
+        for fn_ in [f for c in mi.classes.values() for f in c.methods.values()] + list(mi.functions.values()):
+            outs, raws = set(), set()
+            for st in ast.walk(fn_.node):
+                if isinstance(st, ast.Assign) and isinstance(st.value, ast.Call) and (getattr(st.value.func, "id", None) == "process_logits" or getattr(st.value.func, "attr", None) == "process_logits"):
+                    outs |= {t.id for t in st.targets if isinstance(t, ast.Name)}
+                    if st.value.args:
+                        raws |= {x.id for x in ast.walk(st.value.args[0]) if isinstance(x, ast.Name)}
+            if not outs:
+                continue
+            for c in ast.walk(fn_.node):
+                if isinstance(c, ast.Call) and (getattr(c.func, "id", None) == "Categorical" or getattr(c.func, "attr", None) == "Categorical"):
+                    n += 1
+                    ops_ = list(c.args) + [k.value for k in c.keywords]
+                    names = {x.id for o in ops_ for x in ast.walk(o) if isinstance(x, ast.Name)}
+                    ok = bool(names & outs) and not (names & (raws - outs))
+                    ctx.ob("C11.m", f"{fn_.qualname}:entropy-of-the-processed-distribution", ok, fn_.loc,
+                           f"Categorical({', '.join(ast.unparse(o)[:30] for o in ops_)}): built from the value process_logits returned ({sorted(outs)}) -- {ok}",
+                           construct=f"{fn_.qualname}:categorical-source")
+    if n < 1:
+        raise AnalysisError(f"Categorical constructions next to process_logits lost: {n} < 1 (L2DPolicy4PPO.evaluate expected)")
+
+
 def step_distribution_per_row(ctx: Ctx):
     """C11.j the step distribution of an instance is computed from its own row of logits: the logit pipeline (process_logits,
     top-k / top-p filters), the log-likelihood and the entropy contain no reduction over the batch axis, row pick or
@@ -124,6 +156,7 @@ def run(ctx: Ctx):
     for _o in ctx.obligations[_n1:]:
         _o.rule = "C11.l"
     step_distribution_per_row(ctx)
+    entropy_of_the_processed_distribution(ctx)
     ds = ctx.repo.get_class(DEC, "DecodingStrategy")
     bs = ctx.repo.get_class(DEC, "BeamSearch")
     it = pairing(ctx, ds, "step", ("actions", "logprobs"), "DecodingStrategy.step")
